@@ -126,3 +126,21 @@ package art
 //@   opaque-callee checkpoint IsSamePosition RevertToCheckpoint Truncate OnMemChange
 //@   ensures noop: h == 0 || h > old(len(t.stages)) ==> len(t.stages) == old(len(t.stages))
 //@   ensures popped: h != 0 && h <= old(len(t.stages)) ==> h == old(len(t.stages)) && len(t.stages) == h - 1
+
+// ---- checkpoints (C07: reverting to a checkpoint restores exactly the view that existed when it was taken) ------------------
+// Undo walks the value log back to the checkpoint, so a value logged BEFORE a checkpoint that is still out must never be
+// overwritten in place: Checkpoint records the position it hands out, and the in-place swap is taken only for a value that
+// was logged after the latest checkpoint handed out AND (as before) after the start of the innermost staging level.
+// newerThan(cp, a): the value at log address a was appended after checkpoint cp (what CanModify computes).
+//@ spec func newerThan(cp *arena.MemDBCheckpoint, a arena.MemdbArenaAddr) bool { return mathint(a.idx) > cp.blocks - 1 || (mathint(a.idx) == cp.blocks - 1 && mathint(a.off) > cp.offsetInBlock) }
+//@ func (*ART) Checkpoint
+//@   prop C07 C08
+//@   opaque-callee Checkpoint
+//@   ensures recorded: result != nil && t.lastCheckpoint != nil && t.lastCheckpoint != result && t.lastCheckpoint.blocks == result.blocks && t.lastCheckpoint.offsetInBlock == result.offsetInBlock
+//@ func (*ART) trySwapValue
+//@   prop C07 C08
+//@   may-panic
+//@   opaque-callee GetValue
+//@   inline-callee CanModify
+//@   ensures protected: result1 ==> (t.lastCheckpoint == nil || newerThan(t.lastCheckpoint, addr)) && (len(t.stages) == 0 || newerThan(ref(t.stages[len(t.stages)-1]), addr))
+//@   ensures same: t.lastCheckpoint == old(t.lastCheckpoint) && len(t.stages) == old(len(t.stages))
